@@ -123,33 +123,45 @@ def look(fn, expected):
     return "=" if r is expected else "!"
 
 
-def show_coll(od, c):
+DEFAULT_PROBES = (2, 254, 255, 256)
+
+
+def enc_probes(probes):
+    return ",".join(str(k) for k in probes) if probes else "-"
+
+
+def dec_probes(tok):
+    return () if tok == "-" else tuple(int(x) for x in tok.split(","))
+
+
+def show_coll(od, c, probes=DEFAULT_PROBES):
     is_arr = isinstance(c, odm.ODArray)
     subs = [show_var(c.subindices[k]) for k in sorted(c.subindices)]
     names = [f"{esc(k)}>{v.subindex}{'=' if c.subindices.get(v.subindex) is v else '!'}"
              for k, v in sorted(c.names.items())]
     if is_arr:
         pr = []
-        for k in (2, 255, 256):
+        for k in probes:
             try:
                 pr.append(show_var(c[k]))
             except Exception:
                 pr.append("~")
-        probes = "P[" + "|".join(pr) + "]"
+        pdump = "P[" + "|".join(pr) + "]"
     else:
-        probes = "P[]"
+        pdump = "P[]"
     ml = []
     for k in sorted(c.subindices):
         m = c.subindices[k]
-        ml.append(look(lambda: c[m.name], m) + look(lambda: od[c.name + "." + m.name], m))
+        ml.append(look(lambda: c[m.name], m) + look(lambda: od[c.name + "." + m.name], m)
+                  + look(lambda: c[k], m))
     return ("A{" if is_arr else "R{") + ";".join([
         esc(c.name), str(c.index), show_opt(lambda s: "=" + esc(s), c.storage_location),
-        "S[" + "|".join(subs) + "]", "N[" + ",".join(names) + "]", probes,
+        "S[" + "|".join(subs) + "]", "N[" + ",".join(names) + "]", pdump,
         "M[" + "".join(ml) + "]"]) + "}"
 
 
-def show_obj(od, o):
-    body = "V{" + show_var(o) + "}" if isinstance(o, odm.ODVariable) else show_coll(od, o)
+def show_obj(od, o, probes=DEFAULT_PROBES):
+    body = "V{" + show_var(o) + "}" if isinstance(o, odm.ODVariable) else show_coll(od, o, probes)
     return body + "L" + look(lambda: od[o.name], o)
 
 
@@ -167,8 +179,8 @@ def list_or(xs, sep):
     return sep.join(xs) if xs else "-"
 
 
-def show_od(od):
-    objs = [show_obj(od, od.indices[i]) for i in od]
+def show_od(od, probes=DEFAULT_PROBES):
+    objs = [show_obj(od, od.indices[i], probes) for i in od]
     names = [f"{esc(k)}>{o.index}{'=' if od.indices.get(o.index) is o else '!'}"
              for k, o in sorted(od.names.items())]
     di = od.device_information
@@ -447,7 +459,25 @@ def diff_var(got, exp, where):
     return None
 
 
-def check_import(spec, out):
+def probes_for(spec):
+    """the sub-indices every array of the imported dictionary is asked for: the ends of the sub-index range, and for
+    every compact array the last announced entry and the one after it, the first one without a name of its own; for
+    every array written member by member the sub-index after its last one"""
+    ks = set(DEFAULT_PROBES)
+    for o in spec["objs"]:
+        if o["kind"] == "compact":
+            ks |= {o["n"], o["n"] + 1, (o["n"] + 1) // 2}
+            if o.get("names"):
+                ks |= {len(o["names"]), len(o["names"]) + 1}
+        elif o["kind"] == "arr" and o["members"]:
+            ks.add(max(m["sub"] for m in o["members"]) + 1)
+    return tuple(sorted(k for k in ks if 1 <= k <= 256))
+
+
+MAX_ARRAY_ENTRIES = 254       # CiA 301/306: sub-indices 1..0xFE; 0xFF is reserved
+
+
+def check_import(spec, out, probes=DEFAULT_PROBES):
     """The property, stated on the implementation's dump.  None, or a sentence."""
     try:
         d = parse_dump(out)
@@ -554,19 +584,37 @@ def check_import(spec, out):
             if r:
                 return r
         if set(g["M"]) - {"="}:
-            return f"{w}: a member is not reached by its name or by 'Parent.Child' (flags {g['M']})"
-        if o["kind"] == "compact" and o.get("names") is None:
-            # expansion: every sub-index 1..n is a variable of the template's type
+            return (f"{w}: a member is not reached by its name, by 'Parent.Child' or by its sub-index "
+                    f"(flags {g['M']})")
+        if want == "A":
+            if len(g["probes"]) != len(probes):
+                return f"{w}: {len(g['probes'])} answers to {len(probes)} sub-index look-ups"
+            listed = {int(x["sub"]): x for x in g["subs"]}
+            got_p = dict(zip(probes, g["probes"]))
+            for k, p in got_p.items():
+                if k in listed and p != listed[k]:
+                    return f"{w}: looking up sub-index {k} does not give the entry listed under that sub-index"
+        if o["kind"] == "compact":
+            # expansion: every sub-index 1..n is a variable of the template's type, access, default and limits,
+            # under its own sub-index and a name of its own
             tv = exp_var(o["var"], idx, 1, nid)
-            for k, p in zip((2, 255, 256), g["probes"]):
-                if k <= o["n"]:
-                    if p is None:
-                        return f"{w}: compact array of {o['n']} entries has no sub-index {k}"
-                    for f in ("index", "dt", "acc", "def", "min", "max"):
-                        if p[f] != tv[f]:
-                            return f"{w}: expanded sub-index {k}: {f} is {p[f]!r}, template has {tv[f]!r}"
-                    if p["sub"] != str(k):
-                        return f"{w}: expanded sub-index {k} reports sub-index {p['sub']}"
+            n = min(o["n"], MAX_ARRAY_ENTRIES)
+            names_seen = {x["name"]: int(x["sub"]) for x in g["subs"]}
+            for k, p in got_p.items():
+                if not 1 <= k <= n:
+                    continue              # beyond the announced entries: nothing is claimed
+                if p is None:
+                    return (f"{w}: compact array of {o['n']} entries is not expanded: it has no "
+                            f"sub-index {k}")
+                for f in ("index", "dt", "acc", "def", "min", "max"):
+                    if p[f] != tv[f]:
+                        return f"{w}: expanded sub-index {k}: {f} is {p[f]!r}, template has {tv[f]!r}"
+                if p["sub"] != str(k):
+                    return f"{w}: expanded sub-index {k} reports sub-index {p['sub']}"
+                if not p["name"] or names_seen.get(p["name"], k) != k:
+                    return (f"{w}: expanded sub-index {k} is called {p['name']!r}, like sub-index "
+                            f"{names_seen.get(p['name'])}")
+                names_seen[p["name"]] = k
     return None
 
 
@@ -791,7 +839,8 @@ def rand_spec(rng, size=None, types=None, suffix=None):
         spec["dummy"] = [rng.choice(["0", "0", "1", "00", "01"]) for _ in range(7)]
         spec["dummysec"] = rng.choice(["DummyUsage", "DummyUsage", "dummyusage", "Dummyusage", "dummyUsage"])
     if rng.random() < 0.7:
-        n = rng.choice([0, 1, 2, 3, 5])
+        # up to 30 lines: Line10.. sort before Line2 as texts, Lines may be spelled in any base
+        n = rng.choice([0, 1, 2, 3, 5, 9, 10, 11, 12, 20, 30]) if rng.random() < 0.8 else rng.randint(0, 30)
         lines = [rand_text(rng, 0, 25) for _ in range(n)]
         spec["comments"] = {"lines": lines, "lines_t": rand_num(rng, n)["t"]}
     spec["lists"] = rng.random() < 0.6
@@ -845,13 +894,16 @@ def rand_spec(rng, size=None, types=None, suffix=None):
                 o["stor"] = rng.choice(["RAM", "ROM"])
             objs.append(o)
         else:
-            n = rng.choice([1, 2, 3, 8, 20, 254])
+            # 1..254 entries (CiA 306), biased to both ends of the range
+            n = rng.choice([1, 2, 3, 8, 20, 127, 128, 253, 254, 254]) if rng.random() < 0.85 else rng.randint(1, 254)
             tv = rand_var(rng, name, 1, dt=tchoice(), toplevel=False)
             tv["ot"] = rng.choice(["0x8", "8"])
             names = None
             if rng.random() < 0.5:
-                n = rng.choice([1, 2, 3, 5, 20])
-                names = rand_names(rng, n, avoid=["Number of entries"], dots=True)
+                # a name list for the first m entries (NrOfEntries counts the names, CompactSubObj the entries)
+                m = rng.choice([1, 2, 3, 5, 20]) if rng.random() < 0.93 else rng.choice([100, 253, 254])
+                names = rand_names(rng, m, avoid=["Number of entries"], dots=True)
+                n = m if rng.random() < 0.6 else min(254, m + rng.choice([1, 2, 7, 200]))
             sec = hex4(rng, idx)
             objs.append({"kind": "compact", "index": idx, "sec": sec, "namesec": sec + "Name", "n": n,
                          "ntext": rand_num(rng, n)["t"], "var": tv, "names": names,
@@ -861,12 +913,12 @@ def rand_spec(rng, size=None, types=None, suffix=None):
 
 
 def spec_to_op_parts(spec):
-    """(file name hex, node id token, document, 'w', spec hex)"""
+    """(file name hex, node id token, document, 'w', spec hex, sub-index probes)"""
     text = write_eds(spec)
     doc = parse_text(text)
     nid = spec.get("nid_arg")
     return [hx(spec["file"]), "none" if nid is None else str(nid), enc_doc(doc), "w",
-            hx(json.dumps(spec, separators=(",", ":"), ensure_ascii=False))]
+            hx(json.dumps(spec, separators=(",", ":"), ensure_ascii=False)), enc_probes(probes_for(spec))]
 
 
 class NamedStringIO(io.StringIO):
